@@ -195,6 +195,12 @@ func (h *Hist) genTx() *histTx {
 		}
 		tx.req.Msgs = []sdk.Msg{&ammtypes.MsgJoinPool{Sender: u.Addr.String(), PoolId: p.Id, MaxAmountsIn: maxIn, ShareAmountOut: shareOut}}
 		tx.f = J{"pool": p.Id, "maxIn": coinsArr(maxIn), "shareOut": shareOut.String(), "single": single}
+		if r.Intn(5) == 0 {
+			// the same account joins the same pool twice at the same block time (one tx, two messages): a dust join first, then the real one
+			dust := &ammtypes.MsgJoinPool{Sender: u.Addr.String(), PoolId: p.Id, MaxAmountsIn: sdk.NewCoins(coin(p.Denoms[0], h.amt(10, 100_000))), ShareAmountOut: math.ZeroInt()}
+			tx.req.Msgs = []sdk.Msg{dust, tx.req.Msgs[0]}
+			tx.f["twice"] = true
+		}
 	case "amm.exit":
 		p := h.pool(nil)
 		c := app.CommitmentKeeper.GetCommitments(ctx, u.Addr)
